@@ -11,7 +11,7 @@ def units(tier):
     cnt = 250 if tier == "quick" else 2000
     us = []
     for i in range(n):
-        us.append(dict(kind="chains", typed=bool(i % 2), seed=report.seed() * 1000 + i, count=cnt, start=0, N=N, all_points=(tier == "thorough")))
+        us.append(dict(kind="chains", typed=bool(i % 2), seed=report.seed() * 1000 + i, count=cnt, start=0, N=N, all_points=(tier == "thorough"), deep=(i == 0)))
     return us
 
 
